@@ -1,5 +1,5 @@
 From Coq Require Import Arith NArith Bool Lia List.
-Require Import Canon SemTk CountTk TableProto BddBase BddIte BddCR BddSat BddCof BddCof2 BddCtor BddEval BddPaths BddPathsCount BddReach BddExport BddDot Glue Machine Reachable.
+Require Import Canon SemTk CountTk TableProto BddBase BddIte BddCR BddSat BddCof BddCof2 BddCtor BddEval BddPaths BddPathsCount BddReach BddExport BddDot BddTerm Glue Machine Reachable.
 Import ListNotations.
 Local Open Scope N_scope.
 
@@ -65,6 +65,45 @@ Section Specs.
     apply (push_spec m rs _ mr' x (fun s' r => exists t, @V sops s' r t /\ forall e, rsem r t e = (if F e then G e else H e))) in Hs; [exact Hs|]. intros s' r E.
     destruct (ite_ok _ _ _ _ _ _ _ _ _ _ HI HC E Vf Vg Vh) as (_ & _ & Ex & tr & Vr & Sr & _).
     split; [exact Ex|]. exists tr. split; [exact Vr|]. intro e. now rewrite Sr, Sf, Sg, Sh.
+  Qed.
+
+  (* C02, termination on the concrete machine: with fuel 3 * (number of variable levels + 1) + 3 the ITE line yields no
+     result only when the node table filled up on the way (the crate's "Storage is full" panic): there is an extension
+     of the store, itself satisfying the invariants, in which every cell 1 .. capacity-1 is occupied. *)
+  Theorem ite_step_terminates mr f g h rf rg rh tf tg th L fuel :
+    reachable mr -> liveh mr f rf -> liveh mr g rg -> liveh mr h rh ->
+    @V sops (store mr) rf tf -> @V sops (store mr) rg tg -> @V sops (store mr) rh th ->
+    allle L tf -> allle L tg -> allle L th ->
+    (3 * N.to_nat (L + 1) + 3 <= fuel)%nat ->
+    mstep fuel mr (HIte f g h) = None ->
+    exists s', @sext sops (store mr) s' /\ @Inv sops s' /\ storage_full node (tbl s').
+  Proof.
+    intros HR Lf Lg Lh Vf Vg Vh Af Ag Ah Hfuel Hs. destruct mr as [m rs].
+    destruct (good_of _ HR) as (HI & HC & _). unfold liveh in *; cbn [fst snd store] in *.
+    unfold Reachable.mstep, step in Hs. rewrite Lf, Lg, Lh in Hs.
+    match type of Hs with match ?X with _ => _ end = _ => destruct X as [[s1 r1]|] eqn:E; [discriminate|] end. clear Hs.
+    destruct (@ite_terminates sops sok L (N.to_nat (L + 1)) fuel Hfuel (core m) rf rg rh tf tg th HI HC Vf Vg Vh Af Ag Ah (mu_le L tf tg th) E)
+      as (s' & nd & Ex & HI' & Hp).
+    exists s'. splits; auto. destruct HI' as [HT _]. exact (cput_none_storage_full nhash s' nd HT Hp).
+  Qed.
+
+  (* the same without mentioning trees: for live handles there is a fuel bound (3 * (largest variable + 2) + 3) from which
+     on the only way to get no result is a full table *)
+  Theorem ite_step_fuel_bound mr f g h rf rg rh :
+    reachable mr -> liveh mr f rf -> liveh mr g rg -> liveh mr h rh ->
+    exists bound, forall fuel, (bound <= fuel)%nat -> mstep fuel mr (HIte f g h) = None ->
+      exists s', @sext sops (store mr) s' /\ @Inv sops s' /\ storage_full node (tbl s').
+  Proof.
+    intros HR Lf Lg Lh.
+    destruct (live_denotes nhash khash bmask cmask0 smask0 capacity cap_ok mr f rf HR Lf) as (F & tf & Vf & _).
+    destruct (live_denotes nhash khash bmask cmask0 smask0 capacity cap_ok mr g rg HR Lg) as (G & tg & Vg & _).
+    destruct (live_denotes nhash khash bmask cmask0 smask0 capacity cap_ok mr h rh HR Lh) as (H & th & Vh & _).
+    set (L := N.max (maxvar tf) (N.max (maxvar tg) (maxvar th))).
+    exists (3 * N.to_nat (L + 1) + 3)%nat. intros fuel Hfuel Hs.
+    apply (ite_step_terminates mr f g h rf rg rh tf tg th L fuel HR Lf Lg Lh Vf Vg Vh); auto.
+    - eapply allle_mono; [|apply allle_maxvar]. unfold L; lia.
+    - eapply allle_mono; [|apply allle_maxvar]. unfold L; lia.
+    - eapply allle_mono; [|apply allle_maxvar]. unfold L; lia.
   Qed.
 
   (* a handle-producing line whose arguments are all live and whose precondition holds is not skipped; what it returns: *)
